@@ -46,7 +46,11 @@ structure Field where
   reset : Reset
   reads : Nat               -- selections of the field in package yang that are not plain write targets
   writers : List String     -- functions with a write after construction
-  pinned : List String      -- allow-list: the only functions that may write it (construction, call-scoped)
+  pinned : List String      -- allow-list: the only functions that may write it (construction, call-scoped) /
+                            -- that may STORE into it (derived: a write that is not a plain reset)
+  /-- derived fields, computed: the functions that store into the field (index assignment, a value that
+  is not fresh, delete, append) and are neither pinned nor helpers only called from a pinned function -/
+  stray : List String := []
   deriving Repr, Inhabited
 
 /-- A type whose values can only hang off derived fields (its fields are not listed one by one). -/
@@ -73,7 +77,7 @@ def Field.justified (f : Field) : Bool :=
   match f.allow with
   | .registry | .config | .sync => true
   | .construction | .callScoped => f.writers.all fun w => f.pinned.any fun p => pinMatches p w
-  | .derived => f.reset == .full || f.reset == .generation
+  | .derived => (f.reset == .full || f.reset == .generation) && f.stray.isEmpty
   -- a field nobody has classified: harmless only if nothing in the package ever reads it
   | .unknown => !f.exported && f.reads == 0
 
